@@ -246,3 +246,23 @@ Proof.
   exists st', o, es'. split; [exact H1|]. split; [exact H2|]. split; [exact H3|]. split; [exact H4|].
   eapply step_shape_untouched. exact H5.
 Qed.
+
+(* The hypothesis `0 <= eend` is needed: get_events without a window filters `endtime >= 0`
+   (sqlite.py: starttime_i = ... if starttime else 0), so events that end before 1970 are
+   stored but never read back, and the loop inserts every heartbeat. *)
+Lemma sq_pre1970_counterexample :
+  exists h b p m stream,
+    sq_view (sq_run sq_init h) b = Some (m, []) /\
+    Forall (fun e => eid e = None /\ 0 <= dur e) stream /\
+    StronglySorted (fun a c => ts a < ts c) stream /\
+    option_map (fun v => map strip_id (snd v))
+               (sq_view (fst (ingest_stream sq_step (sq_run sq_init h) b p stream)) b)
+    = Some stream /\
+    heartbeat_reduce stream p <> stream.
+Proof.
+  exists [CreateBucket 1 (mkMeta 1 1 1 0 None 0)], 1, 5, (mkMeta 1 1 1 0 None 0),
+         [mkEvent None (-10) 2 1; mkEvent None (-7) 2 1].
+  split; [reflexivity|]. split; [repeat constructor; cbn; lia|].
+  split; [repeat constructor; cbn; lia|]. split; [vm_compute; reflexivity|].
+  vm_compute. discriminate.
+Qed.
